@@ -23,7 +23,7 @@ package fragmentation
 // the fragment is reported "used" exactly when it overlaps an undeleted hole, and a fragment
 // that is not used changes nothing.
 //@ func (*reassembler).updateHoles props C08 C07
-//@   requires first <= last && 0 <= r.deleted && r.deleted <= 1 << 30 && len(r.holes) <= 1 << 30
+//@   requires 0 <= r.deleted && r.deleted <= 1 << 30 && len(r.holes) <= 1 << 30
 //@   ensures len(r.holes) >= old(len(r.holes)) && r.deleted >= old(r.deleted)
 //@   ensures implies(!result, len(r.holes) == old(len(r.holes)) && r.deleted == old(r.deleted))
 //@   ensures implies(result, r.deleted > old(r.deleted))
@@ -89,7 +89,7 @@ package fragmentation
 // stored fragments reassembled without a gap; otherwise nothing is returned. Contradictory
 // fragments yield an error, never a panic.
 //@ func (*reassembler).process props C08 C07
-//@   requires first <= last && 0 <= r.deleted && r.deleted <= 1 << 30 && len(r.holes) <= 1 << 30
+//@   requires 0 <= r.deleted && r.deleted <= 1 << 30 && len(r.holes) <= 1 << 30
 //@   requires (r.deleted == 0 || len(r.heap) > 0) && len(r.holes) >= 1
 //@   ensures implies(result2, result4 == nil && r.deleted >= len(r.holes) && !old(r.done))
 //@   ensures implies(!result2, result1.size == 0 && len(result1.views) == 0)
@@ -163,6 +163,6 @@ package fragmentation
 // if none, or if the registered one is older than the timeout); the datagram comes back only
 // when that reassembler reports completion.
 //@ func (*Fragmentation).Process props C08 C07
-//@   requires fOK(f) && first <= last
+//@   requires fOK(f)
 //@   ensures implies(!result2, result1.size == 0 && len(result1.views) == 0)
 //@   modifies everything()
